@@ -227,12 +227,13 @@ From Patronus Require Import PdrImpl PdrImplProofs.
 (** Success of the concrete model is sound — for every oracle satisfying the hypothesis, every
     fuel, generalisation on or off. *)
 Theorem C10_pdr_model_success_sound :
-  forall (lit : Type) (lit_eqb : lit -> lit -> bool) (St : Type) (cube_of_state : St -> list lit) (W : Type)
-         (solve : nat -> query lit -> answer lit St) (gen_on has_bads : bool) (bmc_result : bmc_answer W)
+  forall (lit : Type) (lit_eqb : lit -> lit -> bool) (St : Type) (cube_of_state : St -> list lit) (W EM : Type)
+         (solve : nat -> query lit -> answer lit St EM) (cmd_fail : nat -> option EM) (n_init : nat)
+         (gen_on has_bads : bool) (bmc_result : bmc_answer W EM)
          (lit_holds : lit -> St -> bool) (bad0 : St -> bool) (step0 trans : St -> St -> bool) (bad : St -> bool)
-         (fuel bf : nat) (st' : pst lit St),
-    oracle_ok lit lit_eqb St cube_of_state solve has_bads lit_holds bad0 step0 trans bad ->
-    pdr lit lit_eqb St cube_of_state W solve gen_on has_bads bmc_result fuel bf = Ok (VSuccess W, st') ->
+         (fuel bf : nat) (st' : pst lit St EM),
+    oracle_ok lit lit_eqb St cube_of_state EM solve has_bads lit_holds bad0 step0 trans bad ->
+    pdr lit lit_eqb St cube_of_state W EM solve cmd_fail n_init gen_on has_bads bmc_result fuel bf = Ok (VSuccess W, st') ->
     safe St bad0 step0 trans bad.
 Proof. exact pdr_model_success_sound. Qed.
 Print Assumptions C10_pdr_model_success_sound.
@@ -241,31 +242,34 @@ Print Assumptions C10_pdr_model_success_sound.
     most MAX_FRAMES steps (the obligation chain that reached the initial frame is a real execution),
     so an exact bounded model checker (C02) cannot come back empty-handed. *)
 Theorem C10_pdr_model_fail_real :
-  forall (lit : Type) (lit_eqb : lit -> lit -> bool) (St : Type) (cube_of_state : St -> list lit) (W : Type)
-         (solve : nat -> query lit -> answer lit St) (gen_on has_bads : bool) (bmc_result : bmc_answer W)
+  forall (lit : Type) (lit_eqb : lit -> lit -> bool) (St : Type) (cube_of_state : St -> list lit) (W EM : Type)
+         (solve : nat -> query lit -> answer lit St EM) (cmd_fail : nat -> option EM) (n_init : nat)
+         (gen_on has_bads : bool) (bmc_result : bmc_answer W EM)
          (lit_holds : lit -> St -> bool) (bad0 : St -> bool) (step0 trans : St -> St -> bool) (bad : St -> bool)
-         (fuel bf : nat) (w : W) (st' : pst lit St),
-    oracle_ok lit lit_eqb St cube_of_state solve has_bads lit_holds bad0 step0 trans bad ->
-    pdr lit lit_eqb St cube_of_state W solve gen_on has_bads bmc_result fuel bf = Ok (VFail W w, st') ->
-    bmc_result = BmcFail W w /\ (exists d, d <= MAX_FRAMES /\ unsafe_at St bad0 step0 trans bad d).
+         (fuel bf : nat) (w : W) (st' : pst lit St EM),
+    oracle_ok lit lit_eqb St cube_of_state EM solve has_bads lit_holds bad0 step0 trans bad ->
+    pdr lit lit_eqb St cube_of_state W EM solve cmd_fail n_init gen_on has_bads bmc_result fuel bf = Ok (VFail W w, st') ->
+    bmc_result = BmcFail W EM w /\ (exists d, d <= MAX_FRAMES /\ unsafe_at St bad0 step0 trans bad d).
 Proof. exact pdr_model_fail_real. Qed.
 Print Assumptions C10_pdr_model_fail_real.
 
-(** Definite: with a truthful solver that never says "unknown" the model returns neither an error
+(** Definite: with a truthful solver and no fault ([no_faults]: no "unknown", no error answer, no failing
+    command, no failing BMC fallback) the model returns neither an error
     nor a panic (every Err / panic! / assert! / index path of pdr.rs is unreachable: "original cube is
     reachable from init", FrameId decrement/increment, frame indexing, the assert in fix_gen_cube);
     the fuel of fix_gen_cube's loop and of the pushing loop is computed and suffices.  TERMINATION of
     block_cube's loop and of the main loop is NOT proved: the statement is conditional on the fuel
     ([Fuel] = the model's own fuel ran out). *)
 Theorem C10_pdr_model_definite :
-  forall (lit : Type) (lit_eqb : lit -> lit -> bool) (St : Type) (cube_of_state : St -> list lit) (W : Type)
-         (solve : nat -> query lit -> answer lit St) (gen_on has_bads : bool) (bmc_result : bmc_answer W)
+  forall (lit : Type) (lit_eqb : lit -> lit -> bool) (St : Type) (cube_of_state : St -> list lit) (W EM : Type)
+         (solve : nat -> query lit -> answer lit St EM) (cmd_fail : nat -> option EM) (n_init : nat)
+         (gen_on has_bads : bool) (bmc_result : bmc_answer W EM)
          (lit_holds : lit -> St -> bool) (bad0 : St -> bool) (step0 trans : St -> St -> bool) (bad : St -> bool)
          (fuel bf : nat),
-    oracle_ok lit lit_eqb St cube_of_state solve has_bads lit_holds bad0 step0 trans bad ->
-    (forall n q, solve n q <> AUnknown lit St) ->
-    match pdr lit lit_eqb St cube_of_state W solve gen_on has_bads bmc_result fuel bf with
-    | Err _ | Panic _ => False
+    oracle_ok lit lit_eqb St cube_of_state EM solve has_bads lit_holds bad0 step0 trans bad ->
+    no_faults lit St W EM solve cmd_fail bmc_result ->
+    match pdr lit lit_eqb St cube_of_state W EM solve cmd_fail n_init gen_on has_bads bmc_result fuel bf with
+    | Err _ _ | Panic _ => False
     | Ok _ | Fuel => True
     end.
 Proof. exact pdr_model_no_error. Qed.
@@ -274,27 +278,39 @@ Print Assumptions C10_pdr_model_definite.
 (** ... and [Unknown] only when the frame limit is exceeded or the BMC fallback gives up although a
     counterexample within its bound exists. *)
 Theorem C10_pdr_model_unknown_only :
-  forall (lit : Type) (lit_eqb : lit -> lit -> bool) (St : Type) (cube_of_state : St -> list lit) (W : Type)
-         (solve : nat -> query lit -> answer lit St) (gen_on has_bads : bool) (bmc_result : bmc_answer W)
+  forall (lit : Type) (lit_eqb : lit -> lit -> bool) (St : Type) (cube_of_state : St -> list lit) (W EM : Type)
+         (solve : nat -> query lit -> answer lit St EM) (cmd_fail : nat -> option EM) (n_init : nat)
+         (gen_on has_bads : bool) (bmc_result : bmc_answer W EM)
          (lit_holds : lit -> St -> bool) (bad0 : St -> bool) (step0 trans : St -> St -> bool) (bad : St -> bool)
-         (fuel bf : nat) (st' : pst lit St),
-    oracle_ok lit lit_eqb St cube_of_state solve has_bads lit_holds bad0 step0 trans bad ->
-    pdr lit lit_eqb St cube_of_state W solve gen_on has_bads bmc_result fuel bf = Ok (VUnknown W, st') ->
-    MAX_FRAMES < length (p_frames lit St st') \/
-    (bmc_result = BmcOther W /\ (exists d, d <= MAX_FRAMES /\ unsafe_at St bad0 step0 trans bad d)).
+         (fuel bf : nat) (st' : pst lit St EM),
+    oracle_ok lit lit_eqb St cube_of_state EM solve has_bads lit_holds bad0 step0 trans bad ->
+    pdr lit lit_eqb St cube_of_state W EM solve cmd_fail n_init gen_on has_bads bmc_result fuel bf = Ok (VUnknown W, st') ->
+    MAX_FRAMES < length (p_frames lit St EM st') \/
+    (bmc_result = BmcOther W EM /\ (exists d, d <= MAX_FRAMES /\ unsafe_at St bad0 step0 trans bad d)).
 Proof. exact pdr_model_unknown_only. Qed.
 Print Assumptions C10_pdr_model_unknown_only.
 
 (** The hypotheses are satisfiable: the exhaustive-search oracle over a listed state space is truthful
     and total. *)
 Theorem C10_pdr_enum_oracle_truthful :
-  forall (lit : Type) (lit_eqb : lit -> lit -> bool) (St : Type) (lit_holds : lit -> St -> bool) (bad0 : St -> bool)
+  forall (lit : Type) (lit_eqb : lit -> lit -> bool) (St EM : Type) (lit_holds : lit -> St -> bool) (bad0 : St -> bool)
          (step0 trans : St -> St -> bool) (bad : St -> bool) (states : list St),
     (forall s, List.In s states) -> (forall l, lit_eqb l l = true) ->
-    forall n q, truthful lit lit_eqb St lit_holds bad0 step0 trans bad q
-                         (enum_solve lit St lit_holds bad0 step0 trans bad states n q).
+    forall n q, truthful lit lit_eqb St EM lit_holds bad0 step0 trans bad q
+                         (enum_solve lit St EM lit_holds bad0 step0 trans bad states n q).
 Proof. exact enum_solve_truthful. Qed.
 Print Assumptions C10_pdr_enum_oracle_truthful.
+
+(** The oracle hypothesis can be TESTED on a recorded answer: [answer_ok] (executable, applied by the
+    driver to every answer of the real solver on systems with few states) decides [truthful]. *)
+Theorem C10_pdr_answer_check_exact :
+  forall (lit : Type) (lit_eqb : lit -> lit -> bool) (St EM : Type) (lit_holds : lit -> St -> bool) (bad0 : St -> bool)
+         (step0 trans : St -> St -> bool) (bad : St -> bool) (states : list St),
+    (forall s, List.In s states) ->
+    forall q a, answer_ok lit St EM lit_holds bad0 step0 trans bad states lit_eqb q a = true <->
+                truthful lit lit_eqb St EM lit_holds bad0 step0 trans bad q a.
+Proof. exact answer_ok_truthful. Qed.
+Print Assumptions C10_pdr_answer_check_exact.
 
 (** Non-vacuity: the model runs.  Two-bit states 0..3, literals (bit, polarity); the counter
     0 -> 1 -> 2 -> 0 (3 steps to 0); with bad = 3 the model answers Success (generalisation on and
@@ -305,9 +321,9 @@ Definition pex_holds (l : pex_lit) (s : nat) : bool := Bool.eqb (Nat.testbit s (
 Definition pex_cube (s : nat) : list pex_lit := (0, Nat.testbit s 0) :: (1, Nat.testbit s 1) :: nil.
 Definition pex_step0 (s s' : nat) : bool := Nat.eqb s 0 && Nat.eqb s' 1.
 Definition pex_run (bad : nat -> bool) (gen : bool) :=
-  pdr pex_lit pex_lit_eqb nat pex_cube unit
-      (enum_solve pex_lit nat pex_holds (fun s => Nat.eqb s 0 && bad s) pex_step0 ex_trans bad ex_states)
-      gen true (BmcFail unit tt) 50 50.
+  pdr pex_lit pex_lit_eqb nat pex_cube unit unit
+      (enum_solve pex_lit nat unit pex_holds (fun s => Nat.eqb s 0 && bad s) pex_step0 ex_trans bad ex_states)
+      (fun _ => None) 3 gen true (BmcFail unit unit tt) 50 50.
 
 Example C10_pdr_model_example :
   (match pex_run (fun s => Nat.eqb s 3) true with Ok (VSuccess _, _) => true | _ => false end) = true /\
@@ -334,34 +350,34 @@ From Patronus Require Import PdrSys PdrSysProofs.
 
 Theorem C10_pdr_model_success_sound_sys :
   forall (sy : sys), fin_class sy = true ->
-  forall (W : Type) (solve : nat -> query slit -> answer slit (sstate sy)) (gen_on : bool)
-         (bmc_result : bmc_answer W) (fuel bf : nat) (st' : pst slit (sstate sy)),
-    (forall n q, truthful slit slit_eqb (sstate sy) (slit_holds sy) (st_bad0 sy) (st_step0 sy) (st_trans sy) (st_bad sy)
+  forall (W EM : Type) (solve : nat -> query slit -> answer slit (sstate sy) EM) (cmd_fail : nat -> option EM) (n_init : nat)
+         (gen_on : bool) (bmc_result : bmc_answer W EM) (fuel bf : nat) (st' : pst slit (sstate sy) EM),
+    (forall n q, truthful slit slit_eqb (sstate sy) EM (slit_holds sy) (st_bad0 sy) (st_step0 sy) (st_trans sy) (st_bad sy)
                           q (solve n q)) ->
-    pdr slit slit_eqb (sstate sy) (scube sy) W solve gen_on (has_bads_of sy) bmc_result fuel bf = Ok (VSuccess W, st') ->
+    pdr slit slit_eqb (sstate sy) (scube sy) W EM solve cmd_fail n_init gen_on (has_bads_of sy) bmc_result fuel bf = Ok (VSuccess W, st') ->
     ~ bad_reachable sy.
 Proof. exact pdr_model_success_sound_sys. Qed.
 Print Assumptions C10_pdr_model_success_sound_sys.
 
 Theorem C10_pdr_model_fail_real_sys :
   forall (sy : sys), fin_class sy = true ->
-  forall (W : Type) (solve : nat -> query slit -> answer slit (sstate sy)) (gen_on : bool)
-         (bmc_result : bmc_answer W) (fuel bf : nat) (w : W) (st' : pst slit (sstate sy)),
-    (forall n q, truthful slit slit_eqb (sstate sy) (slit_holds sy) (st_bad0 sy) (st_step0 sy) (st_trans sy) (st_bad sy)
+  forall (W EM : Type) (solve : nat -> query slit -> answer slit (sstate sy) EM) (cmd_fail : nat -> option EM) (n_init : nat)
+         (gen_on : bool) (bmc_result : bmc_answer W EM) (fuel bf : nat) (w : W) (st' : pst slit (sstate sy) EM),
+    (forall n q, truthful slit slit_eqb (sstate sy) EM (slit_holds sy) (st_bad0 sy) (st_step0 sy) (st_trans sy) (st_bad sy)
                           q (solve n q)) ->
-    pdr slit slit_eqb (sstate sy) (scube sy) W solve gen_on (has_bads_of sy) bmc_result fuel bf = Ok (VFail W w, st') ->
-    bmc_result = BmcFail W w /\ (exists d : nat, (d <= MAX_FRAMES)%nat /\ bad_reachable_within sy d).
+    pdr slit slit_eqb (sstate sy) (scube sy) W EM solve cmd_fail n_init gen_on (has_bads_of sy) bmc_result fuel bf = Ok (VFail W w, st') ->
+    bmc_result = BmcFail W EM w /\ (exists d : nat, (d <= MAX_FRAMES)%nat /\ bad_reachable_within sy d).
 Proof. exact pdr_model_fail_real_sys. Qed.
 Print Assumptions C10_pdr_model_fail_real_sys.
 
 Theorem C10_pdr_model_definite_sys :
-  forall (sy : sys) (W : Type) (solve : nat -> query slit -> answer slit (sstate sy)) (gen_on : bool)
-         (bmc_result : bmc_answer W) (fuel bf : nat),
-    (forall n q, truthful slit slit_eqb (sstate sy) (slit_holds sy) (st_bad0 sy) (st_step0 sy) (st_trans sy) (st_bad sy)
+  forall (sy : sys) (W EM : Type) (solve : nat -> query slit -> answer slit (sstate sy) EM) (cmd_fail : nat -> option EM) (n_init : nat)
+         (gen_on : bool) (bmc_result : bmc_answer W EM) (fuel bf : nat),
+    (forall n q, truthful slit slit_eqb (sstate sy) EM (slit_holds sy) (st_bad0 sy) (st_step0 sy) (st_trans sy) (st_bad sy)
                           q (solve n q)) ->
-    (forall n q, solve n q <> AUnknown slit (sstate sy)) ->
-    match pdr slit slit_eqb (sstate sy) (scube sy) W solve gen_on (has_bads_of sy) bmc_result fuel bf with
-    | Err _ | Panic _ => False
+    no_faults slit (sstate sy) W EM solve cmd_fail bmc_result ->
+    match pdr slit slit_eqb (sstate sy) (scube sy) W EM solve cmd_fail n_init gen_on (has_bads_of sy) bmc_result fuel bf with
+    | Err _ _ | Panic _ => False
     | Ok _ | Fuel => True
     end.
 Proof. exact pdr_model_definite_sys. Qed.
